@@ -1,0 +1,41 @@
+//go:build verif
+
+package annotations
+
+// Contracts for gvc (see /verif/DESIGN.md). Comment-only: this file adds no code to any build.
+
+//@ spec isFirst(h AnnotationHolder, name string, k int) bool = 0 <= k && k < len(h.attributes) && h.attributes[k].Name == name && forall(j, 0, k, h.attributes[j].Name != name)
+//@ spec hasAttr(h AnnotationHolder, name string) bool = exists(k, 0, len(h.attributes), h.attributes[k].Name == name)
+//@ spec isFirstByValue(h AnnotationHolder, v string, k int) bool = 0 <= k && k < len(h.attributes) && h.attributes[k].Value == v && forall(j, 0, k, h.attributes[j].Value != v)
+
+//@ func AnnotationHolder.GetFirst props C01,C16,C14
+//@ ensures none: implies(result == nil, !hasAttr(holder, attribute))
+//@ ensures first: implies(result != nil, hasAttr(holder, attribute) && forall(k, 0, len(holder.attributes), implies(isFirst(holder, attribute, k), *result == holder.attributes[k])))
+//@ ensures fresh: implies(result != nil, fresh(result))
+//@ loop 0 invariant 0 <= _n && _n <= len(holder.attributes) && forall(k, 0, _n, holder.attributes[k].Name != attribute)
+//@ loop 0 decreases len(holder.attributes) - _n
+
+//@ func AnnotationHolder.Has props C01,C16,C14
+//@ ensures result == hasAttr(holder, attribute)
+
+//@ func AnnotationHolder.GetFirstValueOrEmpty props C01,C16,C14
+//@ ensures implies(!hasAttr(holder, attribute), result == "")
+//@ ensures implies(hasAttr(holder, attribute), forall(k, 0, len(holder.attributes), implies(isFirst(holder, attribute, k), result == holder.attributes[k].Value)))
+
+//@ func AnnotationHolder.FindFirstByValue props C06,C10,C14
+//@ ensures none: implies(result == nil, forall(k, 0, len(holder.attributes), holder.attributes[k].Value != value))
+//@ ensures first: implies(result != nil, exists(k, 0, len(holder.attributes), holder.attributes[k].Value == value) && forall(k, 0, len(holder.attributes), implies(isFirstByValue(holder, value, k), *result == holder.attributes[k])))
+//@ ensures fresh: implies(result != nil, fresh(result))
+//@ loop 0 invariant 0 <= _n && _n <= len(holder.attributes) && forall(k, 0, _n, holder.attributes[k].Value != value)
+
+//@ rec countName(h AnnotationHolder, name string, n int) int = ite(n <= 0, 0, countName(h, name, n-1) + ite(h.attributes[n-1].Name == name, 1, 0))
+
+//@ func AnnotationHolder.GetAll props C03,C04,C16,C14
+//@ ensures count: len(result) == countName(holder, attribute, len(holder.attributes))
+//@ ensures elems: forall(k, 0, len(holder.attributes), implies(holder.attributes[k].Name == attribute, 0 <= countName(holder, attribute, k) && countName(holder, attribute, k) < len(result) && *result[countName(holder, attribute, k)] == holder.attributes[k]))
+//@ ensures nonnil: forall(i, 0, len(result), result[i] != nil && fresh(result[i]))
+//@ loop 0 invariant 0 <= _n && _n <= len(holder.attributes)
+//@ loop 0 invariant len(attributes) == countName(holder, attribute, _n) && fresh(attributes)
+//@ loop 0 invariant forall(i, 0, len(attributes), attributes[i] != nil && fresh(attributes[i]))
+//@ loop 0 invariant forall(k, 0, _n, 0 <= countName(holder, attribute, k) && countName(holder, attribute, k) <= countName(holder, attribute, _n))
+//@ loop 0 invariant forall(k, 0, _n, implies(holder.attributes[k].Name == attribute, countName(holder, attribute, k) < countName(holder, attribute, _n) && *attributes[countName(holder, attribute, k)] == holder.attributes[k]))
